@@ -206,6 +206,10 @@ def apply_contract(ex, c, fi, args, kwargs, st, k, ctl, node):
     if st.spec:
         if not c.pure:
             raise Unsupported("call of non-pure %s inside a specification" % c.target, node)
+    # schema typing: a reference of static class C denotes an instance of C (or a subclass)
+    for a_ in list(args) + list(kwargs.values()):
+        if isinstance(a_, SV) and a_.ty.kind == "ref" and a_.ty.args[0] in ex.repo.classes:
+            st = st.assume(ex.cls_test(a_.t, a_.ty.args[0]))
     env = contract_env(ex, c, fi, args, kwargs, st, node)
     pre = st.copy(env=dict(env), spec=True, old=None, fn=fi)
     for ln, le in c.let:
@@ -217,6 +221,16 @@ def apply_contract(ex, c, fi, args, kwargs, st, k, ctl, node):
             cx.oblige("call:%s/%s@%s" % (short(c.target), name, line), st, g,
                       {"kind": "precondition", "callee": c.target})
             st = st.assume(g)
+    if st.spec:
+        # pure call inside a specification: use the defining clause  same(result, E)  when there is one
+        for name, e in c.ensures:
+            if (isinstance(e, ast.Call) and isinstance(e.func, ast.Name) and e.func.id == "same" and len(e.args) == 2
+                    and isinstance(e.args[0], ast.Name) and e.args[0].id == "result"
+                    and not any(isinstance(n, ast.Name) and n.id == "result" for n in ast.walk(e.args[1]))):
+                v = ex.spec_eval(e.args[1], pre)
+                if isinstance(v, SV):
+                    v = ex.coerce(v, c.ret, "result of " + c.target)
+                return k(st, v)
     # 2. havoc what the callee may modify, allocate the result
     post = havoc_modifies(ex, c, pre.env, st, st)
     if c.ret == T.NONE:
@@ -249,6 +263,13 @@ def apply_contract(ex, c, fi, args, kwargs, st, k, ctl, node):
         post = ex.field_write(obj, field, val, post)
     ps = post.copy(env=penv, spec=True, old=pre, fn=fi)
     facts = [ex.spec_bool(e, ps) for _, e in c.ensures]
+    if st.spec:
+        # the caller keeps no state in specification mode: the facts about the fresh result become
+        # global assumptions (only possible when no bound variable occurs in them)
+        if st.bound:
+            raise Unsupported("pure call of %s without a defining `same(result, ...)` clause under a quantifier" % c.target, node)
+        cx.axioms.extend(f for f in facts if f != "true")
+        return k(st, result)
     out = post.assume(*facts).copy(env=st.env, fn=st.fn, spec=st.spec, old=st.old)
     return k(out, result)
 
@@ -273,6 +294,7 @@ def construct(ex, ci, args, kwargs, st, k, ctl, node):
 # ---------------------------------------------------------------------- verifying one contract
 def verify_contract(ex, c):
     cx = ex.cx
+    ex.reveals = set(c.reveals)
     fi = ex.repo.func(c.target)
     is_value_init = fi.cls is not None and fi.cls.name in T.VALUE_CLASSES and fi.node.name == "__init__" \
         and (not c.params or c.params[0][0] != "self")
@@ -280,7 +302,7 @@ def verify_contract(ex, c):
     for n, t in c.params:
         if t == T.PYOBJ:
             raise Unsupported("pyobj parameter in verified contract " + c.target)
-        env[n] = cx.fresh(n, t)
+        env[n] = SV("none", T.NONE) if t == T.NONE else cx.fresh(n, t)
     fnames = [a.arg for a in fi.node.args.args]
     cnames = [n for n, _ in c.params]
     expect = fnames[1:] if is_value_init else fnames
